@@ -5,6 +5,7 @@ use crate::runner::PropDef;
 pub mod c01;
 pub mod c02;
 pub mod c03;
+pub mod c04;
 pub mod c11;
 pub mod c14;
 pub mod c15;
@@ -12,7 +13,7 @@ pub mod c16;
 pub mod c18;
 
 pub fn all() -> Vec<&'static PropDef> {
-    vec![&c01::PROP, &c02::PROP, &c03::PROP, &c11::PROP, &c14::PROP, &c15::PROP, &c16::PROP, &c18::PROP]
+    vec![&c01::PROP, &c02::PROP, &c03::PROP, &c04::PROP, &c11::PROP, &c14::PROP, &c15::PROP, &c16::PROP, &c18::PROP]
 }
 
 pub fn find(id: &str) -> Option<&'static PropDef> {
